@@ -160,6 +160,8 @@ def execute(case: dict) -> dict:
     w = case["world"]
     from .. import viafile
     ds = viafile.hold_ds(w, W.build(w))
+    from ..cellsdrv import snapshot as _snapshot
+    _before = _snapshot(ds)
     conv = W.bind(w, ds)
     tw = CD.tlc_world(w, ds)
     tw["cells"] = cells_units(w)
@@ -187,6 +189,7 @@ def execute(case: dict) -> dict:
             return out
         e["obs"] = outcome(run)
         rec["events"].append(e)
+    rec["input"] = {"before": _before, "after": _snapshot(ds)}
     return rec
 
 
